@@ -138,7 +138,7 @@ Proof.
     + apply Nat.eqb_eq in E. subst m.
       destruct (memn (fst a) (map fst al)) eqn:M; [apply memn_In in M; tauto|].
       rewrite asum_notin by auto. lia.
-    + destruct (memn m (map fst al)); auto. f_equal. lia.
+    + destruct (memn m (map fst al)); auto.
 Qed.
 
 (* updateAllocateSet: the recorded resources of an allocation list *)
@@ -235,16 +235,21 @@ Qed.
 Lemma aset_remove_nodup p (s : list (Z * devres)) :
   NoDup (map fst s) -> NoDup (map fst (aset_remove p s)).
 Proof. intros. unfold aset_remove. now apply NoDup_map_filter. Qed.
+Lemma filter_all_true {A} (f : A -> bool) l : (forall x, In x l -> f x = true) -> filter f l = l.
+Proof.
+  induction l as [|x l IH]; cbn; intros H; auto.
+  rewrite (H x) by auto. f_equal. apply IH. intros; apply H; auto.
+Qed.
 Lemma aset_remove_sum p (s : list (Z * devres)) d m k :
   NoDup (map fst s) -> lookup p s = Some d ->
   aset_sum (aset_remove p s) m k = aset_sum s m k - dval d m k.
 Proof.
-  unfold aset_remove, aset_sum. induction s as [|[q e] s IH]; cbn; [discriminate|].
-  intros ND L. inversion ND as [|x l Hnot ND']; subst.
-  destruct (q =? p) eqn:E; cbn.
+  unfold aset_remove, aset_sum. induction s as [|[q e] s IH]; [discriminate|].
+  cbn [filter map lookup fst snd]. intros ND L. inversion ND as [|x l Hnot ND']; subst.
+  destruct (q =? p) eqn:E; cbn [negb map fst snd]; rewrite ?sumZ_cons.
   - injection L as ->. apply Z.eqb_eq in E. subst q.
     assert (F : filter (fun e => negb (fst e =? p)) s = s).
-    { apply filter_true_in. intros [r f] Hin. cbn. apply negb_true_iff. apply Z.eqb_neq.
+    { apply filter_all_true. intros [r f] Hin. cbn. apply negb_true_iff. apply Z.eqb_neq.
       intros ->. apply Hnot. apply in_map_iff. now exists (p, f). }
     rewrite F. lia.
   - rewrite IH by auto. lia.
@@ -278,6 +283,17 @@ Proof.
   apply nodupn_NoDup in ND. rewrite dval_resources_of by auto. now apply asum_nonneg.
 Qed.
 
+Lemma fs_dzip tot usd s :
+  free_struct (mkLedger (dzip reset_total_f tot usd) (dzip reset_free_f tot usd) usd s).
+Proof.
+  intros m. cbn [total free used]. unfold dget. rewrite !dget_dzip by auto.
+  destruct (nth m usd None); cbn; auto.
+Qed.
+Lemma dval_dzip_total tot usd m k : dval (dzip reset_total_f tot usd) m k = dval tot m k.
+Proof.
+  unfold dval, dget. rewrite dget_dzip by auto. destruct (nth m usd None); cbn; auto.
+Qed.
+
 Lemma empty_ledger_good : lgood empty_ledger.
 Proof.
   constructor; cbn.
@@ -294,14 +310,12 @@ Proof.
   pose proof W as W'. unfold allocs_wf in W'. apply andb_prop in W' as [ND NN].
   apply nodupn_NoDup in ND.
   constructor; cbn [total free used aset reset_free].
-  - intros m. unfold dget. rewrite !dget_dzip by auto.
-    destruct (nth m (fold_left used_add al (used l)) None); cbn; auto.
-  - intros m k. pose proof (dval_reset_total (mkLedger (total l) (free l) (fold_left used_add al (used l)) (aset l)) m k) as H.
-    cbn [total reset_free used] in H. rewrite H. apply (lg_tot _ G).
+  - apply fs_dzip.
+  - intros m k. rewrite dval_dzip_total. apply (lg_tot _ G).
   - intros e [<-|He]; cbn [snd].
     + now apply dnonneg_resources_of.
     + now apply (lg_aset _ G).
-  - intros m k. rewrite aset_sum_cons, dval_fold_used_add, dval_resources_of by auto.
+  - intros m k. cbn [used aset]. rewrite aset_sum_cons, dval_fold_used_add, dval_resources_of by auto.
     rewrite (lg_sum _ G). lia.
   - cbn. constructor; [|apply G]. intros H. apply aset_mem_In in H. congruence.
 Qed.
@@ -316,12 +330,10 @@ Proof.
   pose proof W as W'. unfold allocs_wf in W'. apply andb_prop in W' as [ND NN].
   apply nodupn_NoDup in ND.
   constructor; cbn [total free used aset reset_free].
-  - intros m. unfold dget. rewrite !dget_dzip by auto.
-    destruct (nth m (fold_left used_sub al (used l)) None); cbn; auto.
-  - intros m k. pose proof (dval_reset_total (mkLedger (total l) (free l) (fold_left used_sub al (used l)) (aset l)) m k) as H.
-    cbn [total reset_free used] in H. rewrite H. apply (lg_tot _ G).
+  - apply fs_dzip.
+  - intros m k. rewrite dval_dzip_total. apply (lg_tot _ G).
   - intros e He. unfold aset_remove in He. apply filter_In in He as [He _]. now apply (lg_aset _ G).
-  - intros m k. rewrite (aset_remove_sum p (aset l) (resources_of al)) by (auto; apply G).
+  - intros m k. cbn [used aset]. rewrite (aset_remove_sum p (aset l) (resources_of al)) by (auto; apply G).
     rewrite dval_fold_used_sub by auto. rewrite (lg_sum _ G), dval_resources_of by auto.
     assert (Hs : aset_sum (aset l) m k = dval (resources_of al) m k + aset_sum (aset_remove p (aset l)) m k).
     { rewrite (aset_remove_sum p (aset l) (resources_of al)) by (auto; apply G). lia. }
@@ -339,10 +351,8 @@ Lemma ledger_reset_total_good l tot : lgood l -> dnonneg tot -> lgood (ledger_re
 Proof.
   intros G Ht. unfold ledger_reset_total.
   constructor; cbn [total free used aset reset_free].
-  - intros m. unfold dget. rewrite !dget_dzip by auto.
-    destruct (nth m (used l) None); cbn; auto.
-  - intros m k. pose proof (dval_reset_total (mkLedger tot (free l) (used l) (aset l)) m k) as H.
-    cbn [total reset_free used] in H. rewrite H. apply Ht.
+  - apply fs_dzip.
+  - intros m k. rewrite dval_dzip_total. apply Ht.
   - apply G.
   - apply G.
   - apply G.
@@ -352,14 +362,12 @@ Qed.
 Lemma ledger_add_fs l p al : free_struct l -> free_struct (ledger_add l p al).
 Proof.
   intros FS. unfold ledger_add. destruct (aset_mem p (aset l)); auto.
-  intros m. cbn [total free used aset reset_free]. unfold dget. rewrite !dget_dzip by auto.
-  destruct (nth m (fold_left used_add al (used l)) None); cbn; auto.
+  cbn [total free used aset reset_free]. apply fs_dzip.
 Qed.
 Lemma ledger_remove_fs l p al : free_struct l -> free_struct (ledger_remove l p al).
 Proof.
   intros FS. unfold ledger_remove. destruct (negb (aset_mem p (aset l))); auto.
-  intros m. cbn [total free used aset reset_free]. unfold dget. rewrite !dget_dzip by auto.
-  destruct (nth m (fold_left used_sub al (used l)) None); cbn; auto.
+  cbn [total free used aset reset_free]. apply fs_dzip.
 Qed.
 Lemma ledger_reset_total_fs l tot : free_struct (ledger_reset_total l tot).
 Proof. apply reset_free_fs. Qed.
